@@ -11,6 +11,9 @@ def run(ctx):
                 "n-grams and words; windows on both sides of the 8-slot and window-3 switches) x all texts of the family "
                 "alphabet up to the bound, expected values by RefScore; non-trivial = (model,text) pair where at least one "
                 "boundary score differs from the bias")
+    # design level: the implementation-shaped scorer (suffix merge, longest-match iteration, padded buffer, cache) refines RefScore
+    from props import _impl
+    _impl.design(ctx)
     cases = _score.generate(ctx, ctx.quick)
     hcases = []
     for i, (fam, c) in enumerate(cases):
